@@ -159,11 +159,16 @@ def oracle_own_params(rng, n=4):
     """each constituent pulse of the real composites carries the noise parameters of the qubit of its tensor slot"""
     out = []
     conv = {"CNOT": ("c", "t"), "CNOT_inv": ("t", "c"), "ECR": ("c", "t"), "ECR_inv": ("c", "t")}
+    # one (gate time, gate error, single-qubit errors) tuple is requested from all four composites in turn (first iteration of each): the derived
+    # cross-resonance duration and error are those of the gate's OWN pulse sequence, whichever composite was asked for the same numbers before
+    shared = (rng.uniform(2e-7, 6e-7), 0.001 + rng.uniform(0, 1e-3), 0.003 + rng.uniform(0, 1e-3))
     for nm, (s0, s1) in conv.items():
         for it in range(n + 2):
             phc, pht, t = rng.uniform(-3, 3), rng.uniform(-3, 3), rng.uniform(2e-7, 6e-7)
             q = {"c": (0.001 + rng.uniform(0, 1e-3), 11e-5 + rng.uniform(0, 1e-5), 12e-5 + rng.uniform(0, 1e-5)),
                  "t": (0.003 + rng.uniform(0, 1e-3), 21e-5 + rng.uniform(0, 1e-5), 22e-5 + rng.uniform(0, 1e-5))}
+            if it == 0:
+                t = shared[0]; q["c"] = (shared[1],) + q["c"][1:]; q["t"] = (shared[2],) + q["t"][1:]
             if it == n:        # amplitude damping off on one qubit (T1 = 0), pure dephasing on: the values must reach the pulses unchanged
                 for w in ("c", "t"): q[w] = (q[w][0], 0.0, q[w][2])
             if it == n + 1:    # a short but valid gate time: the cross-resonance pulses last less than one single-qubit gate
